@@ -236,15 +236,27 @@ def readSyms : List SLine → List RSym
       ⟨addr, some size, name, (rest.takeWhile (fun u => !u.r.isCloser)).map (·.r)⟩ :: readSyms rest
     | _ => readSyms rest
 
-def fileName (ls : List SLine) (idx : Nat) : Option (List Byte) :=
-  ls.findSome? fun l => match l.r with
-    | .file i name => if i = idx then some name else none
-    | _ => none
+/-- `(id, name)` of the FILE records, in text order -/
+def fileRecs : List SLine → List (Nat × List Byte)
+  | [] => []
+  | l :: rest =>
+    match l.r with
+    | .file idx name => (idx, name) :: fileRecs rest
+    | _ => fileRecs rest
 
-def originName (ls : List SLine) (idx : Nat) : Option (List Byte) :=
-  ls.findSome? fun l => match l.r with
-    | .origin i name => if i = idx then some name else none
-    | _ => none
+/-- `(id, name)` of the INLINE_ORIGIN records, in text order -/
+def originRecs : List SLine → List (Nat × List Byte)
+  | [] => []
+  | l :: rest =>
+    match l.r with
+    | .origin idx name => (idx, name) :: originRecs rest
+    | _ => originRecs rest
+
+def nameOf (recs : List (Nat × List Byte)) (idx : Nat) : Option (List Byte) :=
+  (recs.find? fun p => p.1 = idx).map (·.2)
+
+def fileName (ls : List SLine) (idx : Nat) : Option (List Byte) := nameOf (fileRecs ls) idx
+def originName (ls : List SLine) (idx : Nat) : Option (List Byte) := nameOf (originRecs ls) idx
 
 def covers (r : Nat × Nat) (a : Nat) : Bool := r.1 ≤ a && a < r.1 + r.2
 
